@@ -648,6 +648,10 @@ pub struct TensorChain {
 
     /// Optional geometric membership manager for routing decisions.
     geometric_membership: Option<Arc<GeometricMembershipManager>>,
+
+    /// Serializes `commit`: snapshot, apply, state root, append and the
+    /// restore-on-failure path must not interleave with another commit.
+    commit_lock: parking_lot::Mutex<()>,
 }
 
 impl TensorChain {
@@ -696,6 +700,7 @@ impl TensorChain {
             identity,
             validator_registry,
             geometric_membership: None,
+            commit_lock: parking_lot::Mutex::new(()),
         }
     }
 
@@ -738,6 +743,7 @@ impl TensorChain {
             identity,
             validator_registry,
             geometric_membership: None,
+            commit_lock: parking_lot::Mutex::new(()),
         }
     }
 
@@ -782,6 +788,7 @@ impl TensorChain {
             identity,
             validator_registry,
             geometric_membership: None,
+            commit_lock: parking_lot::Mutex::new(()),
         }
     }
 
@@ -827,6 +834,7 @@ impl TensorChain {
             identity,
             validator_registry,
             geometric_membership: None,
+            commit_lock: parking_lot::Mutex::new(()),
         }
     }
 
@@ -977,6 +985,7 @@ impl TensorChain {
     /// # Errors
     /// Returns an error if the transaction cannot be committed or block creation fails.
     pub fn commit(&self, workspace: &Arc<TransactionWorkspace>) -> Result<BlockHash> {
+        let _commit_guard = self.commit_lock.lock();
         workspace.mark_committing()?;
         let operations = workspace.operations();
 
@@ -1425,6 +1434,7 @@ impl TensorChain {
             identity,
             validator_registry,
             geometric_membership: None,
+            commit_lock: parking_lot::Mutex::new(()),
         }
     }
 
